@@ -102,6 +102,12 @@ def main():
         fd = os.open(spec['log'], os.O_WRONLY | os.O_APPEND | os.O_CREAT, 0o644)
         os.write(fd, (json.dumps(rec) + '\n').encode())
         os.close(fd)
+    if spec.get('sched_sock'):
+        # controlled completion order: block until the scheduler releases us
+        import sched
+        sched.client_wait(spec['sched_sock'],
+                          {'pid': os.getpid(), 'verdict': v,
+                           'ntoks': len(toks)})
     sys.stdout.write(beh.get('out', ''))
     sys.stderr.write(beh.get('err', ''))
     sys.stdout.flush()
